@@ -460,6 +460,14 @@ Qed.
 Lemma fresh_payload : payload tm_fresh = [].
 Proof. unfold payload, tm_fresh; cbn [t_size t_raw]. apply takeN_0. Qed.
 
+Lemma transfer_check m t transfer : transfer = TRecv \/ transfer = TCopy -> t_iov m = true -> t_type m = t ->
+  tm_run m [transfer; TCheckType t] =
+  ([(OOk, t_size m, 0); (OOk, t_size m, 0)], mkTm true t (t_size m) (t_raw m) 0).
+Proof.
+  intros Htr Hi Ht. destruct m as [iov ty sz raw off]. cbn [t_iov t_type t_size t_raw] in *. subst iov ty.
+  destruct Htr as [-> | ->]; cbn; unfold tm_check_type, tm_raw_type; cbn [t_iov t_type]; rewrite Z.eqb_refl; reflexivity.
+Qed.
+
 (* the whole exchange: sender stores, the buffer travels (received byte for byte, or copied), receiver checks
    the type and loads *)
 Theorem roundtrip (transfer : top) t fs :
@@ -480,9 +488,8 @@ Proof.
   rewrite Hp0 in Hp1. cbn [app] in Hp1. rewrite Hm0 in Hs1, Hi1, Ht1. cbn [t_size t_iov t_type] in Hs1, Hi1, Ht1.
   rewrite run_app. cbn [fst snd]. rewrite map_app.
   set (m2 := mkTm true t (t_size m1) (t_raw m1) 0).
-  assert (Hstep2 : tm_run m1 [transfer; TCheckType t] = ([(OOk, t_size m1, 0); (OOk, t_size m1, 0)], m2)).
-  { destruct Htr as [-> | ->]; cbn [tm_run tm_step tm_received tm_copy tm_check_type tm_raw_type t_iov t_type t_size t_off];
-      rewrite ?Hi1, ?Ht1; cbn [t_iov t_type]; rewrite Z.eqb_refl; cbn; reflexivity. }
+  assert (Hstep2 : tm_run m1 [transfer; TCheckType t] = ([(OOk, t_size m1, 0); (OOk, t_size m1, 0)], m2))
+    by (apply transfer_check; assumption).
   rewrite Hstep2. cbn [fst snd map]. f_equal. f_equal.
   assert (Hwf2 : wf m2) by exact Hwf1.
   assert (Hp2 : payload m2 = [] ++ enc_all fs ++ []) by (cbn [app]; rewrite app_nil_r; exact Hp1).
